@@ -37,36 +37,43 @@ def G_point(vals, kw):
     return uf("G", len(args))(*args)
 
 
-def make_reduce(log, with_kw):
+OPTION_NAMES = ["scale", "s", "i", "ax", "xi", "xis", "k", "ddof", "out_scale", "keepdim", "shift_"]
+
+
+def _define(src, env):
+    ns = dict(env)
+    exec(src, ns)  # noqa: S102 - builds the harness function with a keyword-only option of the requested name
+    return ns["f"]
+
+
+def make_reduce(log, with_kw, opt="scale"):
+    env = {"log": log, "np": np, "S": S, "F_lane": F_lane}
     if with_kw:
-
-        def f(x, axis, *, scale=1):
-            log.append({"shape": tuple(np.shape(x)), "axis": axis, "kw": {"scale": scale}, "type": type(x).__name__})
-            return S._lane_reduce(lambda lane: F_lane(lane, [scale]), x, axis=axis)
-
+        src = f"""def f(x, axis, *, {opt}=1):
+    log.append({{"shape": tuple(np.shape(x)), "axis": axis, "kw": {{"{opt}": {opt}}}, "type": type(x).__name__}})
+    return S._lane_reduce(lambda lane: F_lane(lane, [{opt}]), x, axis=axis)
+"""
     else:
+        src = """def f(x, axis):
+    log.append({"shape": tuple(np.shape(x)), "axis": axis, "kw": {}, "type": type(x).__name__})
+    return S._lane_reduce(lambda lane: F_lane(lane, []), x, axis=axis)
+"""
+    return _define(src, env)
 
-        def f(x, axis):
-            log.append({"shape": tuple(np.shape(x)), "axis": axis, "kw": {}, "type": type(x).__name__})
-            return S._lane_reduce(lambda lane: F_lane(lane, []), x, axis=axis)
 
-    return f
-
-
-def make_elementwise(log, k, with_kw):
+def make_elementwise(log, k, with_kw, opt="scale"):
+    env = {"log": log, "np": np, "S": S, "G_point": G_point}
     if with_kw:
-
-        def f(*xs, scale=1):
-            log.append({"shapes": [tuple(np.shape(x)) for x in xs], "kw": {"scale": scale}})
-            return S._map(lambda *v: G_point(v, [scale]), *xs)
-
+        src = f"""def f(*xs, {opt}=1):
+    log.append({{"shapes": [tuple(np.shape(x)) for x in xs], "kw": {{"{opt}": {opt}}}}})
+    return S._map(lambda *v: G_point(v, [{opt}]), *xs)
+"""
     else:
-
-        def f(*xs):
-            log.append({"shapes": [tuple(np.shape(x)) for x in xs], "kw": {}})
-            return S._map(lambda *v: G_point(v, []), *xs)
-
-    return f
+        src = """def f(*xs):
+    log.append({"shapes": [tuple(np.shape(x)) for x in xs], "kw": {}})
+    return S._map(lambda *v: G_point(v, []), *xs)
+"""
+    return _define(src, env)
 
 
 def concrete_fn(kind, with_kw):
@@ -113,15 +120,18 @@ def work(item):
     import einx
 
     log = []
-    fn = make_reduce(log, with_kw) if kind == "reduce" else make_elementwise(log, len(case["ins"]), with_kw)
+    used = set(case["desc"].replace("(", " ").replace(")", " ").replace("[", " ").replace("]", " ").replace(",", " ").replace("->", " ").replace("...", " ").split()) | set(case["kwargs"])
+    orng = random.Random(case["desc"])
+    opt = orng.choice([o for o in OPTION_NAMES if o not in used])
+    fn = make_reduce(log, with_kw, opt) if kind == "reduce" else make_elementwise(log, len(case["ins"]), with_kw, opt)
     einfn = (einx.numpy.adapt_numpylike_reduce if kind == "reduce" else einx.numpy.adapt_numpylike_elementwise)(fn)
     arrs = harness.build_inputs(case)
-    res = {"desc": case["desc"], "kind": kind, "with_kw": with_kw, "results": []}
+    res = {"desc": case["desc"], "kind": kind, "with_kw": with_kw, "option": opt, "results": []}
     scales = [2, 3, 2] if with_kw else [None]
     for call_no, scale in enumerate(scales):
         kw = dict(case["kwargs"])
         if scale is not None:
-            kw["scale"] = scale
+            kw[opt] = scale
         del log[:]
         r = {"scale": scale}
         try:
@@ -154,7 +164,7 @@ def work(item):
             c = log[0]
             ax = c["axis"]
             bl = [l.size for l, b in leaves(expand(case["ins"][0])) if b]
-            ok_args = isinstance(ax, tuple) and all(isinstance(a, (int, np.integer)) for a in ax) and list(ax) == sorted(set(ax)) and [c["shape"][a] for a in ax if c["shape"][a] != 1] == [b for b in bl if b != 1] and c["kw"] == ({"scale": scale} if scale is not None else {}) and c["type"] == "SymArray"
+            ok_args = isinstance(ax, tuple) and all(isinstance(a, (int, np.integer)) for a in ax) and list(ax) == sorted(set(ax)) and [c["shape"][a] for a in ax if c["shape"][a] != 1] == [b for b in bl if b != 1] and c["kw"] == ({opt: scale} if scale is not None else {}) and c["type"] == "SymArray"
         elif ok_args:
             c = log[0]
             nd = {len(s) for s in c["shapes"]}
@@ -163,7 +173,7 @@ def work(item):
                 bc = True
             except ValueError:
                 bc = False
-            ok_args = len(nd) == 1 and bc and len(c["shapes"]) == len(case["ins"]) and c["kw"] == ({"scale": scale} if scale is not None else {})
+            ok_args = len(nd) == 1 and bc and len(c["shapes"]) == len(case["ins"]) and c["kw"] == ({opt: scale} if scale is not None else {})
         r["args_ok"] = ok_args
         if v in ("unsat", "trivial") and ok_args:
             r["status"] = "holds"
@@ -171,12 +181,12 @@ def work(item):
             r["status"] = "unknown"
         else:
             # replay with a concrete order-sensitive function on plain numpy
-            r["status"] = replay_concrete(case, kind, with_kw, scale, model, arrs, r, not ok_args, log)
+            r["status"] = replay_concrete(case, kind, with_kw, scale, model, arrs, r, not ok_args, log, opt)
         res["results"].append(r)
     return res
 
 
-def replay_concrete(case, kind, with_kw, scale, model, arrs, r, args_bad, log):
+def replay_concrete(case, kind, with_kw, scale, model, arrs, r, args_bad, log, opt="scale"):
     import hashlib, json, os
 
     if model is not None:
@@ -201,7 +211,8 @@ def replay_concrete(case, kind, with_kw, scale, model, arrs, r, args_bad, log):
         "desc": case["desc"],
         "kind": kind,
         "with_kw": with_kw,
-        "kwargs": runner.jsonable(dict(case["kwargs"], **kwv)),
+        "kwargs": runner.jsonable(dict(case["kwargs"], **({opt: scale} if scale is not None else {}))),
+        "option": opt,
         "args": [replay.enc_array(a, "int") for a in conc],
         "expected": np.array(ref[0], dtype=object).tolist() if ref[0].shape != () else int(ref[0][()]),
         "expected_shape": list(ref[0].shape),
@@ -214,8 +225,9 @@ def replay_concrete(case, kind, with_kw, scale, model, arrs, r, args_bad, log):
             "#!/venv/bin/python\n\"\"\"Replay (C15): adapted user function vs loop notation with the same function.\"\"\"\n"
             "import json, sys\nimport numpy as np\nsys.path.insert(0, '/repo')\nimport einx\n" + REPLAY_FN + "SPEC = json.loads(r'''" + text + "''')\n"
             "def tup(v):\n    return tuple(tup(x) for x in v) if isinstance(v, list) else v\n"
-            "fn = user_reduce if SPEC['kind'] == 'reduce' else user_elementwise\n"
-            "if not SPEC['with_kw']:\n    base = fn\n    fn = (lambda x, axis: base(x, axis)) if SPEC['kind'] == 'reduce' else (lambda *xs: base(*xs))\n"
+            "base = user_reduce if SPEC['kind'] == 'reduce' else user_elementwise\n"
+            "if not SPEC['with_kw']:\n    fn = (lambda x, axis: base(x, axis)) if SPEC['kind'] == 'reduce' else (lambda *xs: base(*xs))\n"
+            "else:\n    ns = {'base': base}\n    exec(('def fn(x, axis, *, %s=1):\\n    return base(x, axis, scale=%s)' if SPEC['kind'] == 'reduce' else 'def fn(*xs, %s=1):\\n    return base(*xs, scale=%s)') % (SPEC['option'], SPEC['option']), ns)\n    fn = ns['fn']\n"
             "ein = (einx.numpy.adapt_numpylike_reduce if SPEC['kind'] == 'reduce' else einx.numpy.adapt_numpylike_elementwise)(fn)\n"
             "args = [np.array(a['data'], dtype=a['dtype']).reshape(a['shape']) for a in SPEC['args']]\n"
             "out = np.asarray(ein(SPEC['desc'], *args, **{k: tup(v) for k, v in SPEC['kwargs'].items()}))\n"
